@@ -14,7 +14,9 @@ META = dict(
     text=("For TwoPointLinearSpring, MobilityLinearSpring, MobilityLinearStop, UniformGravity and Gravity: power delivered (sum of spatial force . spatial velocity and "
           "mobility force * speed) equals minus d/dt of the reported potential energy plus a dissipation term proved <= 0 and == 0 without damping; for the dampers "
           "(TwoPointLinearDamper, MobilityLinearDamper) PE is 0 and power <= 0. All real states and parameters (k,c,d >= 0); the time derivative of PE is obtained by running "
-          "the real calcPotentialEnergy on dual numbers along an arbitrary rigid motion. Contact elements, bushing, cable spring are not covered."),
+          "the real calcPotentialEnergy on dual numbers along an arbitrary rigid motion. Force::LinearBushing (agent-built part_bushing): power of the applied body forces == f . qdot == "
+          "-(d/dt PE) - sum c_i qdot_i^2 with PE = 1/2 sum k_i q_i^2, the code's qdot proved to be the true d/dt of its q (x-y-z angles of R_FM, p_FM in F), away from cos(q1)=0. "
+          "Contact elements, cable spring are not covered."),
     note="Assumes real arithmetic, the mocked matter API contracts (listed), qdot==u for the mobility elements; trusts z3/cvc5, transliterator rules, symlib shim.",
     technique="symbolic execution of transliterated real code on dual numbers over the reals + SMT (z3 QF_NRA)",
     design_ref="4 C12/C13")
@@ -116,9 +118,11 @@ def main(ctx):
     for a in FL.world_assumptions(): ctx.assume(a)
     ctx.assume("body orientations enter as arbitrary 3x3 matrices (superset of rotations): the power identities proved do not need orthonormality")
     ctx.assume("constant-force elements (TwoPointConstantForce, ConstantForce, ConstantTorque, MobilityConstantForce) and GlobalDamper are documented as not contributing potential energy and are outside the property's antecedent; they are not checked here")
-    ctx.not_decided += ["LinearBushing, HuntCrossleyForce, ElasticFoundationForce, CompliantContactSubsystem, ExponentialSpringForce, CableSpring", "GlobalDamper (power = -c|u|^2 needs the whole u vector; trivial but not built)"]
+    import part_bushing
+    part_bushing.c12_part(ctx)
+    ctx.not_decided += ["HuntCrossleyForce, ElasticFoundationForce, CompliantContactSubsystem, ExponentialSpringForce, CableSpring", "GlobalDamper (power = -c|u|^2 needs the whole u vector; trivial but not built)"]
     ctx.explanation = "%d functions under contract; %d obligations." % (len(ctx.functions), len(ctx.obligations))
-    return ctx.finish(replayer=lambda ob: replay(ctx, ob))
+    return ctx.finish(replayer=lambda ob: part_bushing.replay(ctx, ob) if (ob.unit or "").startswith("bushing.") else replay(ctx, ob))
 
 
 _EXE = {}
